@@ -202,3 +202,41 @@ package metric
 //@   loop 8 invariant i >= -1 && m.CompoundField != nil && i < len(m.CompoundField.ExplicitBounds)
 //@   loop 8 invariant forall(i, 1, len(m.Tags), m.Tags[i - 1] != nil && m.Tags[i] != nil && tag.strLess(m.Tags[i - 1].Key, m.Tags[i].Key))
 //@ end
+
+//@ # ---- flat wire format (C16): every row is rebuilt in a clean building context. The decoder object is pooled and a
+//@ # row can be rejected half way through (limits); what such a row had already added must never reach the next row:
+//@ # the context is reset before anything of a row is added, on every path ------------------------------------------
+//@ # clean: nothing has been added to the row builder / the compound scratch since the last reset (ghost)
+//@ ghost field BrokerRowFlatDecoder.clean bool
+//@ func BrokerRowFlatDecoder.resetForNextDecode
+//@   assume
+//@   note RowBuilder.Reset and the two scratch slices are not modelled: the reset is taken to leave a clean context
+//@   modifies itr.clean
+//@   ensures itr.clean
+//@ end
+//@ func BrokerRowFlatDecoder.rebuild
+//@   assume
+//@   note rebuilding adds the tags and fields of the decoded row to the context (also when it rejects the row half way)
+//@   requires[a_row_is_rebuilt_in_a_clean_context] itr.clean
+//@   modifies itr.clean
+//@ end
+//@ extern func github.com/google/flatbuffers/go.GetUOffsetT
+//@   modifies nothing
+//@ end
+//@ extern func github.com/lindb/lindb/proto/gen/v1/flatMetricsV1.Metric.Init
+//@   modifies nothing
+//@ end
+//@ func RowBuilder.Build
+//@   assume
+//@   modifies nothing
+//@ end
+//@ func BrokerRow.FromBlock
+//@   assume
+//@   modifies nothing
+//@ end
+//@ func BrokerRowFlatDecoder.DecodeTo
+//@   prop C16
+//@   requires itr.rowBuilder != nil && row != nil
+//@   modifies *
+//@   ensures[a_decoded_row_comes_from_a_context_that_was_reset_for_it] true
+//@ end
